@@ -51,6 +51,11 @@ func (c *fn) calleeName(call *ast.CallExpr) (string, *types.Func, ast.Expr) {
 // droppableCall: logging. A call of a method on a dropped type (log.Logger),
 // or a function whose only result has a dropped type (log.GetLogger).
 func (c *fn) droppableCall(call *ast.CallExpr) bool {
+	if _, fo, _ := c.calleeName(call); fo != nil {
+		if t := c.g.byKey[fo.Origin().FullName()]; t != nil && t.Drop {
+			return true
+		}
+	}
 	if se, ok := unparen(call.Fun).(*ast.SelectorExpr); ok {
 		if sel, ok := c.info.Selections[se]; ok && sel.Kind() == types.MethodVal {
 			if c.g.kind(sel.Recv(), c.sub) == kDropped {
@@ -83,6 +88,8 @@ func (c *fn) dropCall(call *ast.CallExpr, k kont) string {
 // arguments, logging): it returns the translated term when its evaluation can
 // panic, and fails when nothing can be said about it.
 func (c *fn) argEffect(a ast.Expr) (cx, bool) {
+	c.inMsg++
+	defer func() { c.inMsg-- }()
 	if t := c.info.TypeOf(a); t != nil && c.g.kind(t, c.sub) == kDropped {
 		return cx{}, false
 	}
@@ -152,6 +159,11 @@ func (c *fn) call(call *ast.CallExpr) cx {
 	}
 	// a value of a one-method interface or of a function type is applied
 	if se, ok := unparen(call.Fun).(*ast.SelectorExpr); ok {
+		if sel, ok := c.info.Selections[se]; ok && sel.Kind() == types.MethodVal && c.g.kind(sel.Recv(), c.sub) == kNilable && c.g.nilableIsFn(sel.Recv(), c.sub) &&
+			!(fo != nil && c.g.byKey[fo.Origin().FullName()] != nil) {
+			sig := fo.Type().(*types.Signature)
+			return c.apply(call, c.pointee(se.X), sig, call.Args, false)
+		}
 		if sel, ok := c.info.Selections[se]; ok && sel.Kind() == types.MethodVal && c.g.kind(sel.Recv(), c.sub) == kIfaceFn {
 			if fo != nil && c.g.byKey[fo.Origin().FullName()] != nil {
 				// declared as an oracle in the table: one function for every value of the interface
@@ -164,7 +176,11 @@ func (c *fn) call(call *ast.CallExpr) cx {
 	if fo == nil {
 		if c.kindOf(call.Fun) == kFunc {
 			sig := c.typeOf(call.Fun).Underlying().(*types.Signature)
-			return c.apply(call, c.expr(call.Fun), sig, call.Args, false)
+			partial := false
+			if id, ok := unparen(call.Fun).(*ast.Ident); ok {
+				partial = c.closureVar[c.objOf(id)] && c.closureOpt[c.objOf(id)]
+			}
+			return c.apply(call, c.expr(call.Fun), sig, call.Args, partial)
 		}
 		c.fail(call, "call of something that is not a declared function")
 	}
@@ -180,27 +196,74 @@ func (c *fn) call(call *ast.CallExpr) cx {
 	if recvE != nil {
 		args = append([]ast.Expr{recvE}, args...)
 	}
-	if call.Ellipsis.IsValid() {
-		c.fail(call, "call with ... is not supported")
+	sigC := origin.Type().(*types.Signature)
+	var packed []ast.Expr // the arguments collected by a variadic last parameter
+	variadicPack := false
+	if sigC.Variadic() && !call.Ellipsis.IsValid() {
+		nfix := len(fi.params) - 1
+		if len(args) < nfix {
+			c.fail(call, "call of %s with too few arguments", fi.label)
+		}
+		packed = args[nfix:]
+		args = append(append([]ast.Expr{}, args[:nfix]...), nil)
+		variadicPack = true
+	} else if call.Ellipsis.IsValid() && !sigC.Variadic() {
+		c.fail(call, "call with ... of a function that is not variadic")
 	}
 	if len(args) != len(fi.params) {
 		c.fail(call, "call of %s with %d arguments for %d parameters", fi.label, len(args), len(fi.params))
 	}
 	var as []cx
+	nguard := 0
+	if recvE != nil && c.kindOf(recvE) == kNilable && len(fi.params) > 0 && fi.params[0].dropped {
+		// a method of a possibly nil interface value: the call panics on nil
+		as = append(as, c.pointee(recvE))
+		nguard = 1
+	}
 	for i, p := range fi.params {
 		a := args[i]
+		if a == nil && variadicPack {
+			if p.dropped {
+				continue
+			}
+			et := elemOf(resolve(p.obj.Type(), nil))
+			var es []cx
+			for _, x := range packed {
+				es = append(es, c.exprAs(x, et))
+			}
+			as = append(as, c.lift(es, func(v []string) string { return "[" + strings.Join(v, "; ") + "]" }))
+			continue
+		}
+		if fi.oracle && !p.inout && !p.dropped {
+			// an oracle must not be handed the address of a local variable it could write
+			if u, ok := unparen(a).(*ast.UnaryExpr); ok && u.Op == token.AND {
+				if id := c.rootIdent(u.X); id != nil {
+					if o := c.objOf(id); o != nil && c.isLocal(o) && c.g.kind(o.Type(), c.sub) != kPtr {
+						if _, isLit := unparen(u.X).(*ast.CompositeLit); !isLit {
+							c.fail(a, "the oracle %s receives the address of local variable %s and could write it: declare the parameter in OutParams", fi.label, id.Name)
+						}
+					}
+				}
+			}
+		}
 		switch {
+		case p.callback:
+			// handled by the statement translation (callbackCall)
+		case p.dropped && fi.oracle && c.addressOfLocal(a) != "":
+			c.fail(a, "the dropped parameter of oracle %s receives the address of local variable %s, which the callee could write: use OutParams instead of DropParams", fi.label, c.addressOfLocal(a))
+		case p.dropped && i == 0 && nguard == 1:
+			// guarded above
 		case p.dropped:
 			if r, need := c.argEffect(a); need {
 				_ = r
 				c.fail(a, "argument for a dropped parameter may panic")
 			}
 		case p.inout:
-			id, ok := unparen(a).(*ast.Ident)
-			if !ok || !c.mutable[c.objOf(id)] {
-				c.fail(a, "%s mutates this map argument, which was not created in the calling function (aliasing is not modelled)", fi.label)
+			tgt := c.inoutTarget(a)
+			if tgt == nil {
+				c.fail(a, "%s writes through this argument, which is not a variable this function owns (a local struct / a locally created map or pointer / an own in-out parameter): aliasing is not modelled", fi.label)
 			}
-			as = append(as, cx{s: c.nameOf(c.objOf(id))})
+			as = append(as, cx{s: c.nameOf(c.objOf(tgt))}) // the variable holds the map / the pointee
 		case p.asValue:
 			if _, isPtr := c.typeOf(a).(*types.Pointer); isPtr || c.isNilExpr(a) {
 				as = append(as, c.pointee(a))
@@ -222,10 +285,8 @@ func (c *fn) call(call *ast.CallExpr) cx {
 		}
 	}
 	return c.liftO(as, func(v []string) cx {
+		v = v[nguard:]
 		if len(v) == 0 {
-			if fi.oracle && len(fi.params) > 0 {
-				return cx{s: fi.name, opt: fi.partial}
-			}
 			return cx{s: fi.name, opt: fi.partial}
 		}
 		return cx{s: "(" + fi.name + " " + strings.Join(v, " ") + ")", opt: fi.partial}
@@ -237,6 +298,9 @@ func (c *fn) call(call *ast.CallExpr) cx {
 // error conversions, which a type parameter never needs).
 func (c *fn) paramType(fi *fnInfo, p paramInfo) types.Type {
 	t := p.obj.Type()
+	if p.goType != nil {
+		t = p.goType
+	}
 	if _, isTP := types.Unalias(t).(*types.TypeParam); isTP {
 		return types.Typ[types.String] // placeholder kind: no implicit conversion applies
 	}
@@ -256,12 +320,14 @@ func (c *fn) apply(call *ast.CallExpr, f cx, sig *types.Signature, args []ast.Ex
 		}
 		as = append(as, c.exprAs(a, pt))
 	}
-	c.g.note(c.fi.label + ": the function / interface value called here is assumed non-nil, pure and total")
-	return c.lift(as, func(v []string) string {
+	if !partial {
+		c.g.note(c.fi.label + ": the function / interface value called here is assumed non-nil, pure and total")
+	}
+	return c.liftO(as, func(v []string) cx {
 		if len(v) == 1 {
-			return "(" + v[0] + " tt)"
+			return cx{s: "(" + v[0] + " tt)", opt: partial}
 		}
-		return "(" + strings.Join(v, " ") + ")"
+		return cx{s: "(" + strings.Join(v, " ") + ")", opt: partial}
 	})
 }
 
@@ -278,6 +344,10 @@ func (c *fn) conversion(call *ast.CallExpr, to types.Type) cx {
 	switch {
 	case tk == kString && fk == kString, tk == kInt && fk == kInt, tk == kBool && fk == kBool:
 		return c.expr(a)
+	case tk == kSlice && fk == kString && isByteSlice(to):
+		return c.lift([]cx{c.expr(a)}, func(v []string) string { return "(bytes_of_str " + v[0] + ")" })
+	case tk == kString && fk == kSlice && isByteSlice(c.typeOf(a)):
+		return c.lift([]cx{c.expr(a)}, func(v []string) string { return "(str_of_bytes " + v[0] + ")" })
 	case tk == fk && (tk == kSlice || tk == kMap || tk == kStruct || tk == kPtr) && c.g.typ(to, c.sub) == c.g.typ(c.typeOf(a), c.sub):
 		return c.expr(a)
 	}
@@ -366,10 +436,13 @@ func (c *fn) appendCall(call *ast.CallExpr) cx {
 	if id, ok := first.(*ast.Ident); ok && c.okAppend()[call] == c.objOf(id) && c.objOf(id) != nil {
 		okFirst = true
 	}
+	if _, ok := first.(*ast.SelectorExpr); ok && c.okAppend()[call] != nil {
+		okFirst = true
+	}
 	if !okFirst {
 		c.fail(call, "append is only supported as x = append(x, ..) on a local variable or on a fresh / nil first argument (sharing of backing arrays is not modelled)")
 	}
-	st := c.typeOf(call).Underlying().(*types.Slice)
+	stElem := elemOf(c.typeOf(call))
 	base := c.exprAs(call.Args[0], c.typeOf(call))
 	if call.Ellipsis.IsValid() {
 		if len(call.Args) != 2 {
@@ -387,7 +460,7 @@ func (c *fn) appendCall(call *ast.CallExpr) cx {
 	}
 	as := []cx{base}
 	for _, a := range call.Args[1:] {
-		as = append(as, c.exprAs(a, st.Elem()))
+		as = append(as, c.exprAs(a, stElem))
 	}
 	return c.lift(as, func(v []string) string {
 		return "(List.app " + v[0] + " [" + strings.Join(v[1:], "; ") + "])"
@@ -412,6 +485,22 @@ func (c *fn) okAppend() map[*ast.CallExpr]types.Object {
 			return true
 		}
 		for i := range as.Lhs {
+			if _, isSel := unparen(as.Lhs[i]).(*ast.SelectorExpr); isSel {
+				// x.f = append(x.f, ..)
+				if call, ok := unparen(as.Rhs[i]).(*ast.CallExpr); ok && len(call.Args) > 0 {
+					if fid, ok := unparen(call.Fun).(*ast.Ident); ok {
+						if b, ok := c.info.Uses[fid].(*types.Builtin); ok && b.Name() == "append" {
+							lp, ap := c.pathString(as.Lhs[i]), c.pathString(call.Args[0])
+							if lp != "" && lp == ap {
+								if id := c.rootIdent(as.Lhs[i]); id != nil && c.isLocal(c.objOf(id)) {
+									m[call] = c.objOf(id)
+								}
+							}
+						}
+					}
+				}
+				continue
+			}
 			lid, ok := unparen(as.Lhs[i]).(*ast.Ident)
 			if !ok {
 				continue
@@ -442,6 +531,8 @@ func (c *fn) okAppend() map[*ast.CallExpr]types.Object {
 // msgOf is the Coq string recorded for an error message: a constant, the
 // format of a fmt.Sprintf, or the string expression itself.
 func (c *fn) msgOf(e ast.Expr) cx {
+	c.inMsg++
+	defer func() { c.inMsg-- }()
 	e = unparen(e)
 	if call, ok := e.(*ast.CallExpr); ok {
 		if name, _, _ := c.calleeName(call); name == "fmt.Sprintf" && len(call.Args) >= 1 {
@@ -476,8 +567,10 @@ func implementsError(t types.Type) bool {
 // Error method, used where an error is expected.
 func (c *fn) errorValue(e ast.Expr) cx {
 	e = unparen(e)
+	star := ""
 	if u, ok := e.(*ast.UnaryExpr); ok && u.Op == token.AND {
 		e = unparen(u.X)
+		star = "*"
 	}
 	lit, ok := e.(*ast.CompositeLit)
 	if !ok {
@@ -492,7 +585,8 @@ func (c *fn) errorValue(e ast.Expr) cx {
 	if !ok {
 		c.fail(e, "error type %s is not a struct", n.Obj().Name())
 	}
-	typName := n.Obj().Pkg().Name() + "." + n.Obj().Name()
+	typName := star + n.Obj().Pkg().Name() + "." + n.Obj().Name()
+	unwrapField := c.unwrapField(e, n)
 	msg := cx{s: `""`}
 	var wrapped []cx
 	var keep []cx
@@ -515,7 +609,7 @@ func (c *fn) errorValue(e ast.Expr) cx {
 		switch {
 		case fname == "Msg" && c.g.kind(ft, c.sub) == kString:
 			msg = c.msgOf(ve)
-		case ft != nil && c.g.kind(ft, c.sub) == kError:
+		case ft != nil && c.g.kind(ft, c.sub) == kError && fname == unwrapField:
 			wrapped = append(wrapped, c.exprAs(ve, ft))
 		default:
 			if r, need := c.argEffect(ve); need {
@@ -577,10 +671,7 @@ func libErrorf(c *fn, call *ast.CallExpr, _ ast.Expr) cx {
 		}
 		for i, a := range call.Args[1:] {
 			if i < len(verbs) && verbs[i] == 'w' {
-				if c.kindOf(a) != kError {
-					c.fail(a, "%%w argument is not of type error")
-				}
-				wrapped = append(wrapped, c.expr(a))
+				wrapped = append(wrapped, c.exprAs(a, types.Universe.Lookup("error").Type()))
 				continue
 			}
 			if r, need := c.argEffect(a); need {
@@ -675,11 +766,30 @@ func init() {
 			c.g.note("path/filepath.Ext is the Unix version (separator /)")
 			return c.lift([]cx{c.expr(call.Args[0])}, func(v []string) string { return "(filepath_ext " + v[0] + ")" })
 		},
+		"path/filepath.Base": func(c *fn, call *ast.CallExpr, _ ast.Expr) cx {
+			c.g.note("path/filepath.Base is the Unix version (separator /)")
+			return c.lift([]cx{c.expr(call.Args[0])}, func(v []string) string { return "(filepath_base " + v[0] + ")" })
+		},
+		"(error).Error": func(c *fn, call *ast.CallExpr, recv ast.Expr) cx {
+			if c.inMsg == 0 {
+				c.fail(call, "err.Error() is only supported where its result becomes (part of) an error message or a log argument: message texts are not modelled")
+			}
+			// the text is not modelled (it is recorded as the verb %v); a nil receiver panics
+			if id, ok := unparen(recv).(*ast.Ident); ok && c.nonNilErr[c.objOf(id)] {
+				return cx{s: `"%v"`}
+			}
+			return c.liftO([]cx{c.expr(recv)}, func(v []string) cx {
+				return cx{s: "(match " + v[0] + " with Some _ => Some \"%v\" | None => None end)", opt: true}
+			})
+		},
 		"errors.New": func(c *fn, call *ast.CallExpr, _ ast.Expr) cx {
 			return c.lift([]cx{c.msgOf(call.Args[0])}, func(v []string) string { return "(Some (Err \"errors\" " + v[0] + " []))" })
 		},
 		"fmt.Errorf": libErrorf,
 		"fmt.Sprintf": func(c *fn, call *ast.CallExpr, _ ast.Expr) cx {
+			if c.inMsg > 0 {
+				return c.msgOf(call) // message text: the format stands for it
+			}
 			c.fail(call, "fmt.Sprintf is only supported where its result becomes an error message")
 			return cx{}
 		},
@@ -753,8 +863,9 @@ func goAnchored(re *syntax.Regexp) bool {
 // ---------- package-level variables ----------
 
 type globInfo struct {
-	name    string
-	pointee string // Coq name of the pointee when the initialiser is &T{..}
+	name     string
+	pointee  string // Coq name of the pointee when the initialiser is &T{..}
+	sentinel bool   // an error variable whose value has the variable's name as typ
 }
 
 var globInfos = map[*gen]map[string]*globInfo{}
@@ -788,7 +899,40 @@ func (g *gen) global(v *types.Var, from *fn) *globInfo {
 			g.fail("package-level variable %s has no initialiser of its own (%s)", label, g.L.pos(vd.spec.Pos(), vd.pkg))
 		}
 		init := unparen(vd.spec.Values[vd.index])
-		c := &fn{g: g, pkg: vd.pkg, info: vd.pkg.TypesInfo, opts: &Target{}, fi: &fnInfo{label: label},
+		ipkg := vd.pkg
+		// `var X = f()` where f is `func f() T { return Y }` with Y a package-level variable: X is Y
+		for hop := 0; hop < 4; hop++ {
+			call, ok := init.(*ast.CallExpr)
+			if !ok || len(call.Args) != 0 {
+				break
+			}
+			var fo *types.Func
+			switch f := unparen(call.Fun).(type) {
+			case *ast.Ident:
+				fo, _ = ipkg.TypesInfo.Uses[f].(*types.Func)
+			case *ast.SelectorExpr:
+				fo, _ = ipkg.TypesInfo.Uses[f.Sel].(*types.Func)
+			}
+			if fo == nil || fo.Pkg() == nil {
+				break
+			}
+			g.L.scan(fo.Pkg().Path())
+			fd := g.L.funcs[fo.FullName()]
+			if fd == nil || fd.decl.Body == nil || len(fd.decl.Body.List) != 1 {
+				break
+			}
+			ret, ok := fd.decl.Body.List[0].(*ast.ReturnStmt)
+			if !ok || len(ret.Results) != 1 {
+				break
+			}
+			switch unparen(ret.Results[0]).(type) {
+			case *ast.Ident, *ast.SelectorExpr:
+				init, ipkg = unparen(ret.Results[0]), fd.pkg
+				continue
+			}
+			break
+		}
+		c := &fn{g: g, pkg: ipkg, info: ipkg.TypesInfo, opts: &Target{}, fi: &fnInfo{label: label},
 			names: map[types.Object]string{}, used: map[string]bool{}, views: map[types.Object]string{},
 			asValue: map[types.Object]bool{}, mutable: map[types.Object]bool{}, freshFields: map[types.Object]map[string]bool{}, isInout: map[types.Object]bool{}}
 		gi.name = g.claim(key, pkgBase(path)+"_"+v.Name())
@@ -812,6 +956,20 @@ func (g *gen) global(v *types.Var, from *fn) *globInfo {
 		if val.isOpt() {
 			g.fail("initialiser of %s may panic", label)
 		}
+		if g.kind(v.Type(), nil) == kError {
+			// a sentinel: its identity is its name
+			for _, pre := range []string{`(Some (Err "errors" `, `(Some (Err "fmt" `} {
+				if strings.HasPrefix(val.s, pre) {
+					val.s = "(Some (Err " + CStr(label) + " " + val.s[len(pre):]
+					gi.sentinel = true
+				}
+			}
+			if id := c.globalIdent(init); id != nil {
+				if other := g.global(id, from); other.sentinel {
+					gi.sentinel = true
+				}
+			}
+		}
 		it.text = fmt.Sprintf("(* var %s  [%s] *)\nDefinition %s : %s :=\n  %s.", cmt(label), where, gi.name, ty, val.s)
 	})
 	g.use(it)
@@ -828,4 +986,227 @@ func (g *gen) globalPointee(v *types.Var, from *fn) string {
 		return ""
 	}
 	return g.global(v, from).pointee
+}
+
+// globalIdent: e names a package-level variable.
+func (c *fn) globalIdent(e ast.Expr) *types.Var {
+	var v *types.Var
+	switch x := unparen(e).(type) {
+	case *ast.Ident:
+		v, _ = c.objOf(x).(*types.Var)
+	case *ast.SelectorExpr:
+		if id, ok := x.X.(*ast.Ident); ok {
+			if _, isPkg := c.info.Uses[id].(*types.PkgName); isPkg {
+				v, _ = c.info.Uses[x.Sel].(*types.Var)
+			}
+		}
+	}
+	if v == nil || v.Pkg() == nil || v.Parent() != v.Pkg().Scope() {
+		return nil
+	}
+	return v
+}
+
+// sentinel: e names a package-level error variable created by errors.New / fmt.Errorf.
+func (c *fn) sentinel(e ast.Expr) (string, bool) {
+	v := c.globalIdent(e)
+	if v == nil || c.g.kind(v.Type(), nil) != kError {
+		return "", false
+	}
+	gi := c.g.global(v, c)
+	return gi.name, gi.sentinel
+}
+
+// asTargetType: the dynamic type errors.As(err, target) looks for.
+func (c *fn) asTargetType(target ast.Expr) string {
+	t := c.typeOf(target)
+	p, ok := t.(*types.Pointer)
+	if !ok {
+		c.fail(target, "errors.As target is not a pointer")
+	}
+	et := resolve(p.Elem(), c.sub)
+	star := ""
+	if pp, ok := et.(*types.Pointer); ok {
+		star = "*"
+		et = resolve(pp.Elem(), c.sub)
+	}
+	n, ok := et.(*types.Named)
+	if !ok || !implementsError(n) {
+		c.fail(target, "errors.As target type %s is not an error struct type", types.TypeString(et, nil))
+	}
+	return star + n.Obj().Pkg().Name() + "." + n.Obj().Name()
+}
+
+func init() {
+	goLibCalls["errors.Is"] = func(c *fn, call *ast.CallExpr, _ ast.Expr) cx {
+		name, ok := c.sentinel(call.Args[1])
+		if !ok {
+			c.fail(call, "errors.Is is only supported with a package-level sentinel (var ErrX = errors.New(..)) as target")
+		}
+		c.g.note("errors.Is / errors.As follow Unwrap chains only (custom Is / As methods are not modelled)")
+		return c.lift([]cx{c.expr(call.Args[0])}, func(v []string) string { return "(err_is " + v[0] + " " + name + ")" })
+	}
+	goLibCalls["errors.As"] = func(c *fn, call *ast.CallExpr, _ ast.Expr) cx {
+		target := unparen(call.Args[1])
+		u, ok := target.(*ast.UnaryExpr)
+		if !ok || u.Op != token.AND {
+			c.fail(call, "errors.As target must be &T{..} or &v")
+		}
+		switch x := unparen(u.X).(type) {
+		case *ast.CompositeLit:
+		case *ast.Ident:
+			// the variable must not be read afterwards: its fields are not filled in
+			o := c.objOf(x)
+			uses := 0
+			if c.decl != nil {
+				ast.Inspect(c.decl.Body, func(n ast.Node) bool {
+					if id, ok := n.(*ast.Ident); ok && c.info.Uses[id] == o {
+						uses++
+					}
+					return true
+				})
+			}
+			if uses > 1 {
+				c.fail(call, "the errors.As target %s is used afterwards (the found error is not copied into it)", x.Name)
+			}
+		default:
+			c.fail(call, "errors.As target must be &T{..} or &v")
+		}
+		ty := c.asTargetType(target)
+		c.g.note("errors.Is / errors.As follow Unwrap chains only (custom Is / As methods are not modelled)")
+		return c.lift([]cx{c.expr(call.Args[0])}, func(v []string) string { return "(err_as " + CStr(ty) + " " + v[0] + ")" })
+	}
+	goLibCalls["errors.Join"] = func(c *fn, call *ast.CallExpr, _ ast.Expr) cx {
+		if call.Ellipsis.IsValid() {
+			if len(call.Args) != 1 {
+				c.fail(call, "errors.Join call shape")
+			}
+			return c.lift([]cx{c.expr(call.Args[0])}, func(v []string) string { return "(err_join " + v[0] + ")" })
+		}
+		var as []cx
+		for _, a := range call.Args {
+			as = append(as, c.exprAs(a, types.Universe.Lookup("error").Type()))
+		}
+		return c.lift(as, func(v []string) string { return "(err_join [" + strings.Join(v, "; ") + "])" })
+	}
+}
+
+// unwrapField: the field an error struct's Unwrap method returns ("" when the
+// type has no Unwrap method: errors.Is / As then do not look inside it).
+func (c *fn) unwrapField(at ast.Node, n *types.Named) string {
+	var m *types.Func
+	for _, tt := range []types.Type{n, types.NewPointer(n)} {
+		ms := types.NewMethodSet(tt)
+		for i := 0; i < ms.Len(); i++ {
+			if f, ok := ms.At(i).Obj().(*types.Func); ok && f.Name() == "Unwrap" {
+				m = f
+			}
+		}
+	}
+	if m == nil {
+		return ""
+	}
+	c.g.L.scan(m.Pkg().Path())
+	fd := c.g.L.funcs[m.Origin().FullName()]
+	bad := func() string {
+		c.fail(at, "error type %s has an Unwrap method that is not of the form `return e.Field`", n.Obj().Name())
+		return ""
+	}
+	if fd == nil || fd.decl.Body == nil || len(fd.decl.Body.List) != 1 || fd.decl.Recv == nil || len(fd.decl.Recv.List) != 1 || len(fd.decl.Recv.List[0].Names) != 1 {
+		return bad()
+	}
+	ret, ok := fd.decl.Body.List[0].(*ast.ReturnStmt)
+	if !ok || len(ret.Results) != 1 {
+		return bad()
+	}
+	se, ok := unparen(ret.Results[0]).(*ast.SelectorExpr)
+	if !ok {
+		return bad()
+	}
+	id, ok := unparen(se.X).(*ast.Ident)
+	if !ok || id.Name != fd.decl.Recv.List[0].Names[0].Name {
+		return bad()
+	}
+	return se.Sel.Name
+}
+
+// addressOfLocal: e is &x (or &x.f..) with x a local variable that is not a
+// pointer: storage of this function the callee could write. Returns x's name.
+func (c *fn) addressOfLocal(e ast.Expr) string {
+	u, ok := unparen(e).(*ast.UnaryExpr)
+	if !ok || u.Op != token.AND {
+		return ""
+	}
+	if _, isLit := unparen(u.X).(*ast.CompositeLit); isLit {
+		return ""
+	}
+	id := c.rootIdent(u.X)
+	if id == nil {
+		return ""
+	}
+	o := c.objOf(id)
+	if o == nil || !c.isLocal(o) || c.g.kind(o.Type(), c.sub) == kPtr {
+		return ""
+	}
+	return id.Name
+}
+
+// inoutTarget: the variable of this function an in/out argument stands for:
+// `&x` with x a local struct variable, or a variable holding a map / pointer
+// this function owns (created here, or an in/out parameter of its own).
+func (c *fn) inoutTarget(a ast.Expr) *ast.Ident {
+	a = unparen(a)
+	if u, ok := a.(*ast.UnaryExpr); ok && u.Op == token.AND {
+		id, ok := unparen(u.X).(*ast.Ident)
+		if !ok {
+			return nil
+		}
+		o := c.objOf(id)
+		if o == nil || !c.isLocal(o) {
+			return nil
+		}
+		switch c.g.kind(o.Type(), c.sub) {
+		case kPtr, kMap:
+			return nil
+		}
+		return id
+	}
+	id, ok := a.(*ast.Ident)
+	if !ok {
+		return nil
+	}
+	o := c.objOf(id)
+	if o == nil || !c.mutable[o] {
+		return nil
+	}
+	if c.g.kind(o.Type(), c.sub) == kPtr && !c.asValue[o] {
+		return nil
+	}
+	return id
+}
+
+// pathString prints an identifier / field path (x.f.g) canonically ("" otherwise).
+func (c *fn) pathString(e ast.Expr) string {
+	switch x := unparen(e).(type) {
+	case *ast.Ident:
+		if o := c.objOf(x); o != nil {
+			return fmt.Sprintf("%s@%d", x.Name, o.Pos())
+		}
+	case *ast.SelectorExpr:
+		if _, ok := c.info.Selections[x]; ok {
+			if p := c.pathString(x.X); p != "" {
+				return p + "." + x.Sel.Name
+			}
+		}
+	}
+	return ""
+}
+
+func isByteSlice(t types.Type) bool {
+	e := elemOf(t)
+	if e == nil {
+		return false
+	}
+	b, ok := e.Underlying().(*types.Basic)
+	return ok && (b.Kind() == types.Uint8)
 }
